@@ -303,6 +303,10 @@ func (v *Val) DSL() string {
 	case "s":
 		return sx("s", tinfo(x), hxs(v.S))
 	case "bs":
+		if a, ok := x.([4]byte); ok {
+			// an array: its four bytes, whatever the length of the string it was built from
+			return sx("bs", tinfo(x), "0", hxs(string(a[:])))
+		}
 		return sx("bs", tinfo(x), b01(v.Nil), hxs(v.S))
 	case "sl":
 		parts := []string{"sl", tinfo(x), b01(v.Nil)}
